@@ -30,7 +30,7 @@ ANCHORS = [
 LEVEL = "exploration"
 RULE = (
     "case = (adapter in {ChangeScore, Saving, LocalAnomalyScore} x cost in {L2, GaussianVar, "
-    "GaussianCov, user L1Cost / ModeCost / ClosureTableCost / LazySSECost (reads the inherited _X)} x parameter mode x seeded data); all "
+    "GaussianCov, user L1Cost / ModeCost / ClosureTableCost / LazySSECost (reads the inherited _X) / ScaledSSECost (fixed parameter, not additive over rows)} x parameter mode x seeded data); all "
     "admissible 3- and 4-point cuts for n<=12, random ones beyond (n<=40 quick / 200 thorough, "
     "p<=4). Oracles: (i) adapter output == the stated combination of public evaluate() results of "
     "FRESH cost instances (pooled surroundings: a fresh cost fitted on concat(X[s:a],X[b:e])); "
@@ -45,7 +45,7 @@ ASSUMPTIONS = [
     "inequalities only asserted where every involved segment variance stays above 1e-14 (two orders above the floor)",
 ]
 
-USER_COSTS = ["L1Cost", "ModeCost", "ClosureTableCost", "LazySSECost"]
+USER_COSTS = ["L1Cost", "ModeCost", "ClosureTableCost", "LazySSECost", "ScaledSSECost"]
 
 
 def make_recipe(rng, tier):
@@ -61,6 +61,9 @@ def make_recipe(rng, tier):
         elif kind == "ClosureTableCost":
             cost = S(kind, seed=int(rng.integers(1000)), maxinc=int(rng.integers(1, 4)),
                      zero_prob=float(rng.choice([0.2, 0.5, 0.8])))
+        elif kind == "ScaledSSECost":
+            # fixed parameter (a known variance) in most cases: still not additive over rows
+            cost = S(kind, param=None if rng.random() < 0.25 else float(rng.choice([0.25, 0.5, 2.0, 4.0])))
         elif kind == "L1Cost":
             cost = S(kind, param=None if rng.random() < 0.6 else round(float(rng.normal(0, 1)), 2),
                      weight=float(rng.choice([0.5, 1.0, 2.0, 3.0])))
